@@ -265,3 +265,32 @@ func SequentialFraming(stream []byte) ([]ref.Seg, string) {
 	}
 	return segs, fault
 }
+
+// implStreamFull is implStream returning, per delivered message, all the
+// fields a consumer sees besides the raw bytes.
+func implStreamFull(stream []byte) (out []string, fault string) {
+	ch := make(chan byte, len(stream)+1)
+	for _, b := range stream {
+		ch <- b
+	}
+	close(ch)
+	h := handler.New(frameStart, slog.LevelInfo)
+	pb := pushback.New(ch)
+	cl, site, p := guard(func() {
+		for iter := 0; iter <= len(stream)+2; iter++ {
+			m, err := h.FetchNextMessageFrame(pb)
+			if err != nil && err.Error() == "done" {
+				return
+			}
+			if m == nil {
+				fault = "nil message"
+				return
+			}
+			out = append(out, fmt.Sprintf("type=%d ts=%d sent=%q week=%q err=%q", m.MessageType, m.Timestamp, m.SentAt, m.StartOfWeek, m.ErrorMessage))
+		}
+	})
+	if p {
+		fault = "panic " + cl + "@" + site
+	}
+	return
+}
